@@ -173,10 +173,12 @@ Section WalletSpecProofs.
                        (forall a pw k pk, o = OExport a pw -> r = IKey k pk -> False) ->
                        step_okP m pw0 prev (a_hp ac) o r cur (a_hp ac')).
     { intros Hd Hng Hne. destruct (listing_ok m (a_hp ac) cur) eqn:Hl; [|discriminate].
-      inversion Hd; subst ac'. constructor; auto; try lia.
-      - apply listing_ok_sound. exact Hl.
-      - intros dm a E1 E2. exfalso. exact (Hng dm a E1 E2).
-      - intros a pw k pk E1 E2. exfalso. exact (Hne a pw k pk E1 E2). }
+      inversion Hd; subst ac'.
+      constructor;
+        [ apply listing_ok_sound; exact Hl | lia | exact Hpw
+        | intros dm a E1 E2; exfalso; exact (Hng dm a E1 E2)
+        | intros _; reflexivity
+        | intros a pw k pk E1 E2; exfalso; exact (Hne a pw k pk E1 E2) ]. }
     destruct o; try (apply Hdefault; [exact Hs| intros; discriminate | intros; discriminate]).
     - (* generate *)
       destruct r as [|a|k pk|mm|e]; try (apply Hdefault; [exact Hs| intros; discriminate | intros; discriminate]).
@@ -187,26 +189,25 @@ Section WalletSpecProofs.
       rewrite !andb_true_iff in Hc. destruct Hc as [[[[C1 C2] C3] C4] C5].
       apply N.ltb_lt in C1. apply A_eqb_spec in C2. apply negb_true_iff in C3. apply memA_false in C3.
       apply find_row_In in Hf. cbn [fst] in Hf. destruct Hf as [Hin ->].
-      constructor; try lia.
-      + apply listing_ok_sound. exact C5.
-      + exact Hpw.
-      + intros dm a0 _ E. inversion E; subst a0. repeat split; auto.
-        intros j Hj. rewrite forallb_forall in C4.
-        assert (Hjin : In (ADm m j) (map (ADm m) (seqN (a_hp ac + 1) (N.to_nat (n - a_hp ac - 1))))).
-        { apply in_map. apply seqN_In. lia. }
-        specialize (C4 _ Hjin). apply (existsb_In row_eqb row_eqb_spec) in C4. exact C4.
-      + intros Hno. exfalso. eapply Hno; reflexivity.
-      + intros; discriminate.
+      constructor;
+        [ apply listing_ok_sound; exact C5 | lia | exact Hpw | |
+          intros Hno; exfalso; exact (Hno _ _ eq_refl eq_refl) | intros; discriminate ].
+      intros dm a0 _ E. inversion E; subst a0.
+      split; [exact C1|]. split; [exact Hin|]. split; [exact C2|]. split; [exact C3|].
+      intros j Hj. rewrite forallb_forall in C4.
+      assert (Hjin : In (ADm m j) (map (ADm m) (seqN (a_hp ac + 1) (N.to_nat (n - a_hp ac - 1))))).
+      { apply in_map. apply seqN_In. lia. }
+      specialize (C4 _ Hjin). apply (existsb_In row_eqb row_eqb_spec) in C4. exact C4.
     - (* export *)
       destruct r as [|a'|k pk|mm|e]; try (apply Hdefault; [exact Hs| intros; discriminate | intros; discriminate]).
       match type of Hs with (if ?c then _ else _) = _ => destruct c eqn:Hc; [|discriminate] end.
       inversion Hs; subst ac'; clear Hs.
       rewrite !andb_true_iff in Hc. destruct Hc as [[C1 C2] C3].
       apply A_eqb_spec in C1. apply A_eqb_spec in C2.
-      constructor; auto; try lia.
-      + apply listing_ok_sound. exact C3.
-      + intros; discriminate.
-      + intros a0 pw0' k0 pk0 E1 E2. inversion E1; inversion E2; subst. split; [reflexivity|exact C2].
+      constructor;
+        [ apply listing_ok_sound; exact C3 | lia | exact Hpw | intros; discriminate
+        | intros _; reflexivity | ].
+      intros a0 pw0' k0 pk0 E1 E2. inversion E1; inversion E2. split; congruence.
   Qed.
 
   (* S4 *)
@@ -221,5 +222,203 @@ Section WalletSpecProofs.
       unfold WalletSpec.gen_eqb in He. cbn [fst snd] in He. apply andb_true_iff in He.
       destruct He as [E1 E2]. apply N.eqb_eq in E1. apply A_eqb_spec in E2. subst. exact Hin'.
     - right. apply memA_In. exact Hr.
+  Qed.
+
+  (* ====================================================================================
+     (2) the model meets the oracle on every operation sequence *)
+  Hypothesis derive_inj : forall m i j, addr (derive m i) = addr (derive m j) -> i = j.
+  Hypothesis kdff_inj : forall a b, kdff a = kdff b -> a = b.
+
+  Let step_inv := WalletProofs.step_inv A K M P H F Nm PW A_eqb H_eqb F_eqb Nm_eqb derive addr maddr
+                    kdf kdff mdk0 A_eqb_spec H_eqb_spec derive_inj.
+  Let generate_spec := WalletProofs.generate_spec A K M P H F Nm PW A_eqb H_eqb F_eqb Nm_eqb derive addr
+                    maddr kdf kdff mdk0 A_eqb_spec derive_inj.
+  Let step_frame := WalletProofs.step_frame A K M P H F Nm PW A_eqb H_eqb F_eqb Nm_eqb derive addr maddr
+                    kdf kdff mdk0.
+  Let wrong_password_step := WalletProofs.wrong_password_step A K M P H F Nm PW A_eqb H_eqb F_eqb Nm_eqb
+                    derive addr maddr kdf kdff mdk0 H_eqb_spec F_eqb_spec kdff_inj.
+
+  Lemma A_eqb_refl : forall a, A_eqb a a = true.
+  Proof. intros. apply A_eqb_spec. reflexivity. Qed.
+
+  Lemma same_set_refl : forall {X} (eqb : X -> X -> bool),
+    (forall a b, eqb a b = true <-> a = b) -> forall l, same_set eqb l l = true.
+  Proof. intros X eqb Hspec l. apply (same_set_spec eqb Hspec). split; [tauto|reflexivity]. Qed.
+
+  Lemma unchanged_refl : forall l, unchanged l l = true.
+  Proof.
+    intros l. unfold WalletSpec.unchanged.
+    rewrite (same_set_refl A_eqb A_eqb_spec), (same_set_refl A_eqb A_eqb_spec),
+            (same_set_refl row_eqb row_eqb_spec).
+    replace (Nm_eqb (l_name l) (l_name l)) with true; [reflexivity|].
+    symmetry. apply Nm_eqb_spec. reflexivity.
+  Qed.
+
+  Lemma inv_listing_ok : forall s : state,
+    Inv s -> listing_ok (mdk s) (maxidx s) (obs_listing s) = true.
+  Proof.
+    intros s HI. unfold WalletSpec.listing_ok, WalletSpec.obs_listing. cbn [l_api l_rows l_msigs].
+    rewrite map_map. cbn [fst].
+    rewrite !andb_true_iff. repeat split.
+    - apply nodupb_NoDup. apply (inv_nodup _ _ _ _ _ _ _ _ _ _ _ _ _ HI).
+    - apply nodupb_NoDup. apply (inv_nodup _ _ _ _ _ _ _ _ _ _ _ _ _ HI).
+    - apply nodupb_NoDup. apply (inv_mnodup _ _ _ _ _ _ _ _ _ _ _ _ _ HI).
+    - apply forallb_forall. intros x Hx. apply in_map_iff in Hx. destruct Hx as [r [<- Hr]].
+      unfold WalletSpec.row_ok. cbn [fst snd]. destruct (key_idx r) as [i|] eqn:Hi; [|reflexivity].
+      destruct (inv_idx _ _ _ _ _ _ _ _ _ _ _ _ _ HI r i Hr Hi) as [Hsk Hrange].
+      pose proof (inv_addr _ _ _ _ _ _ _ _ _ _ _ _ _ HI r Hr) as Ha.
+      rewrite !andb_true_iff. repeat split; try lia.
+      apply A_eqb_spec. unfold WalletSpec.AD. rewrite Ha, Hsk. reflexivity.
+  Qed.
+
+  Lemma find_app_last : forall (a : A) (rows : list (A * option N)) row,
+    ~ In a (map fst rows) -> fst row = a ->
+    find (fun x => A_eqb a (fst x)) (rows ++ [row]) = Some row.
+  Proof.
+    intros a rows row Hnin Hrow. induction rows as [|x rows IH]; cbn [app find].
+    - rewrite Hrow, A_eqb_refl. reflexivity.
+    - destruct (A_eqb a (fst x)) eqn:E.
+      + apply A_eqb_spec in E. exfalso. apply Hnin. left. symmetry. exact E.
+      + apply IH. intros Hin. apply Hnin. right. exact Hin.
+  Qed.
+
+  Lemma rows_addrs : forall s : state, map fst (l_rows (obs_listing s)) = addrs s.
+  Proof. intros s. unfold WalletSpec.obs_listing. cbn [l_rows]. rewrite map_map. reflexivity. Qed.
+
+  Lemma imported_row : forall (s : state) a, In a (imported s) -> In (a, None) (l_rows (obs_listing s)).
+  Proof.
+    intros s a Hin. unfold Wallet.imported in Hin. apply in_map_iff in Hin.
+    destruct Hin as [r [<- Hr]]. apply filter_In in Hr. destruct Hr as [Hr Hnone].
+    unfold WalletSpec.obs_listing. cbn [l_rows]. apply in_map_iff. exists r. split; [|exact Hr].
+    destruct (key_idx r); [discriminate|reflexivity].
+  Qed.
+
+  Lemma imported_addrs : forall (s : state) a, In a (imported s) -> In a (addrs s).
+  Proof.
+    intros s a Hin. unfold Wallet.imported in Hin. apply in_map_iff in Hin.
+    destruct Hin as [r [<- Hr]]. apply filter_In in Hr. apply in_map. tauto.
+  Qed.
+
+  Lemma default_ok : forall (s s' : state) (ac : acc),
+    Inv s' -> mdk s' = mdk s -> a_hp ac = maxidx s' ->
+    (if listing_ok (mdk s) (a_hp ac) (obs_listing s') then Some ac else None) = Some ac.
+  Proof.
+    intros s s' ac HI Hm Hhp. rewrite <- Hm, Hhp, (inv_listing_ok s' HI). reflexivity.
+  Qed.
+
+  Lemma model_step_spec : forall (s : state) pw0 (ac : acc) o,
+    Inv s -> pwh s = kdf pw0 -> a_hp ac = maxidx s ->
+    exists ac', spec_step (mdk s) pw0 (obs_listing s) ac o (obs_res (snd (step s o)))
+                          (obs_listing (fst (step s o))) = Some ac' /\
+                a_hp ac' = maxidx (fst (step s o)).
+  Proof.
+    intros s pw0 ac o HI Hpwh Hhp.
+    pose proof (step_inv s o HI) as HI'.
+    pose proof (step_frame s o) as HF. cbn zeta in HF. destruct HF as [Hm [_ Hmax]].
+    unfold WalletSpec.spec_step.
+    (* S2 cannot fire *)
+    assert (Hs2 : wrong_pw A K P H Nm PW H_eqb kdf pw0 o &&
+                  negb (is_ierr A K M (obs_res (snd (step s o))) &&
+                        unchanged (obs_listing s) (obs_listing (fst (step s o)))) = false).
+    { destruct (wrong_pw A K P H Nm PW H_eqb kdf pw0 o) eqn:Hw; [|reflexivity]. cbn [andb].
+      apply negb_false_iff. unfold WalletSpec.wrong_pw in Hw.
+      destruct (op_pw o) as [pw|] eqn:Hop; [|discriminate].
+      apply negb_true_iff in Hw.
+      assert (Hne : kdf pw <> pwh s).
+      { rewrite Hpwh. intros E. apply H_eqb_spec in E. congruence. }
+      destruct (wrong_password_step s o pw HI Hop Hne) as [E1 E2].
+      rewrite E1, unchanged_refl, andb_true_r.
+      destruct (snd (step s o)); cbn in *; congruence. }
+    rewrite Hs2.
+    (* the default branch, whenever the step is not a successful generate *)
+    assert (Hdef : maxidx (fst (step s o)) = maxidx s ->
+                   exists ac', (if listing_ok (mdk s) (a_hp ac) (obs_listing (fst (step s o)))
+                                then Some ac else None) = Some ac' /\
+                               a_hp ac' = maxidx (fst (step s o))).
+    { intros Hsame. exists ac. split; [|congruence].
+      apply default_ok; [exact HI'|exact Hm|congruence]. }
+    assert (Hnogen : (forall dm a, o = OGenerate dm -> snd (step s o) = RAddr a -> False) ->
+                     maxidx (fst (step s o)) = maxidx s).
+    { intros Hno. destruct Hmax as [[dm [a [E1 E2]]]|E]; [exfalso; eapply Hno; eauto|exact E]. }
+    destruct o; try (apply Hdef; apply Hnogen; intros; discriminate).
+    - (* generate *)
+      destruct (step s (OGenerate displayMnemonic)) as [s' r] eqn:Hs. cbn [fst snd] in *.
+      destruct r as [|a|k|mm|e]; cbn [WalletSpec.obs_res];
+        try (apply Hdef; apply Hnogen; intros; discriminate).
+      destruct (generate_spec s displayMnemonic s' a HI Hs) as [n [_ [Hlt [Hov [Ha [Hnin [Hskip Hs']]]]]]].
+      assert (Hn : maxidx s' = n) by (rewrite Hs'; reflexivity).
+      assert (Hrows : l_rows (obs_listing s') = l_rows (obs_listing s) ++ [(a, Some n)]).
+      { rewrite Hs'. unfold WalletSpec.obs_listing, Wallet.set_keys. cbn [l_rows keys].
+        rewrite map_app. reflexivity. }
+      rewrite Hrows, (find_app_last a _ (a, Some n)); [|rewrite rows_addrs; exact Hnin|reflexivity].
+      rewrite Hhp.
+      set (gap := n - maxidx s - 1).
+      assert (Hincl : incl (map (ADm (mdk s)) (seqN (maxidx s + 1) (N.to_nat gap))) (addrs s)).
+      { intros x Hx. apply in_map_iff in Hx. destruct Hx as [j [<- Hj]]. apply seqN_In in Hj.
+        apply imported_addrs. apply Hskip. lia. }
+      assert (Hlen : (N.to_nat gap <= length (addrs s))%nat).
+      { apply NoDup_incl_length in Hincl.
+        - rewrite map_length, seqN_length in Hincl. exact Hincl.
+        - apply (WalletProofs.AD_NoDup A K M derive addr derive_inj). apply seqN_NoDup. }
+      assert (Hgap : (N.of_nat (length (l_rows (obs_listing s))) <? gap) = false).
+      { apply N.ltb_ge. rewrite <- (map_length fst), rows_addrs. lia. }
+      rewrite Hgap.
+      assert (Hcond : (maxidx s <? n) && A_eqb a (ADm (mdk s) n) &&
+                      negb (memA a (l_api (obs_listing s))) &&
+                      forallb (fun x => existsb (row_eqb (x, None)) (l_rows (obs_listing s)))
+                              (map (ADm (mdk s)) (seqN (maxidx s + 1) (N.to_nat gap))) &&
+                      listing_ok (mdk s) n (obs_listing s') = true).
+      { rewrite !andb_true_iff. repeat split.
+        - apply N.ltb_lt. exact Hlt.
+        - apply A_eqb_spec. exact Ha.
+        - apply negb_true_iff. apply memA_false. exact Hnin.
+        - apply forallb_forall. intros x Hx. apply in_map_iff in Hx. destruct Hx as [j [<- Hj]].
+          apply seqN_In in Hj. apply (existsb_In row_eqb row_eqb_spec). apply imported_row.
+          apply Hskip. lia.
+        - rewrite <- Hm, <- Hn. apply inv_listing_ok. exact HI'. }
+      rewrite Hcond. eexists. split; [reflexivity|]. cbn [a_hp]. congruence.
+    - (* export *)
+      destruct (step s (OExport a pw)) as [s' r] eqn:Hs. cbn [fst snd] in *.
+      destruct r as [| |k|mm|e]; cbn [WalletSpec.obs_res];
+        try (apply Hdef; apply Hnogen; intros; discriminate).
+      assert (Hsame : maxidx s' = maxidx s) by (apply Hnogen; intros; discriminate).
+      cbn [Wallet.step] in Hs.
+      destruct (Wallet.pw_ok H_eqb F_eqb kdf kdff s pw); cbn [negb] in Hs; [|discriminate].
+      unfold Wallet.fetch in Hs.
+      destruct (find_key A_eqb a (keys s)) as [r|] eqn:Hf; [|discriminate].
+      destruct (inited s); [|discriminate].
+      inversion Hs; subst s' k; clear Hs.
+      unfold Wallet.find_key in Hf. apply find_some in Hf. destruct Hf as [Hr He].
+      apply A_eqb_spec in He.
+      pose proof (inv_addr _ _ _ _ _ _ _ _ _ _ _ _ _ HI r Hr) as Hra.
+      replace (A_eqb (addr (key_sk r)) a) with true by (symmetry; apply A_eqb_spec; congruence).
+      rewrite A_eqb_refl. cbn [andb].
+      exists ac. split; [|congruence]. apply default_ok; [exact HI|reflexivity|exact Hhp].
+  Qed.
+
+  Lemma model_steps_spec : forall ops (s : state) pw0 (ac : acc),
+    Inv s -> pwh s = kdf pw0 -> a_hp ac = maxidx s ->
+    exists ac', spec_steps (mdk s) pw0 (obs_listing s) ac (model_steps s ops) = Some ac' /\
+                a_hp ac' = maxidx (run s ops).
+  Proof.
+    induction ops as [|o ops IH]; intros s pw0 ac HI Hpwh Hhp;
+      cbn [WalletSpec.model_steps WalletSpec.spec_steps Wallet.run].
+    - exists ac. auto.
+    - destruct (model_step_spec s pw0 ac o HI Hpwh Hhp) as [ac1 [H1 H2]].
+      rewrite H1.
+      pose proof (step_frame s o) as HF. cbn zeta in HF. destruct HF as [Hm [Hp _]].
+      rewrite <- Hm. apply IH; [apply step_inv; exact HI|congruence|exact H2].
+  Qed.
+
+  Theorem model_passes_spec : forall m pw0 nm ops,
+    exists ac,
+      spec_wallet m pw0 nm (model_steps (@Wallet.create A K M P H F Nm PW kdf m pw0 nm) ops) = Some ac /\
+      a_hp ac = maxidx (run (@Wallet.create A K M P H F Nm PW kdf m pw0 nm) ops).
+  Proof.
+    intros m pw0 nm ops. unfold WalletSpec.spec_wallet.
+    apply (model_steps_spec ops (@Wallet.create A K M P H F Nm PW kdf m pw0 nm) pw0 (acc0 A)).
+    - apply WalletProofs.create_inv.
+    - reflexivity.
+    - reflexivity.
   Qed.
 End WalletSpecProofs.
